@@ -39,8 +39,8 @@ ASSUMPTIONS = [
 ]
 BOUNDS = {
     "quick": "157 values of length <=2 + 300 length-3 values at a fixed stride = 457 values x {scalar, list} x {inline, file}, "
-    "and the 157 length<=2 values x {scalar, list} via gen_metadata; export flag alternates by index",
-    "thorough": "all 1885 values of length <=3 x {scalar, list} x {inline, file, gen_metadata} x both export-flag parities; same 12 histories x 3 variable sets",
+    "and the 157 length<=2 values x {scalar, list} via gen_metadata; export flag alternates by index; whole environments of 4/63/65/100/300 KiB x {inline, file}",
+    "thorough": "all 1885 values of length <=3 x {scalar, list} x {inline, file, gen_metadata} x both export-flag parities; same 12 histories x 3 variable sets; same payload sizes",
 }
 
 CHARS = ["a", " ", "'", '"', "\\", "$", "`", "\n", "\t", "é", "n", "!"]
@@ -106,6 +106,7 @@ def tasks(tier):
                 for lo in range(0, hi_all, BATCH):
                     out.append((tier, transport, kind, parity, lo, min(lo + BATCH, hi_all)))
     out += [(tier, "history", i) for i in range(len(histories()))]
+    out += [(tier, "size", transport, kb) for transport in ("inline", "file") for kb in SIZES_KB]
     return out
 
 
@@ -565,9 +566,46 @@ def work_history(task):
     }
 
 
+SIZES_KB = (4, 63, 65, 100, 300)  # around and well past a pipe's 64 KiB capacity
+_SIZE_UNIT = "a b'\"\\$`\n\té!x"
+
+
+def size_vars(kb):
+    n = kb * 1024
+    big = (_SIZE_UNIT * (n // len(_SIZE_UNIT) + 1))[:n]
+    return [["BIG1", "scalar", big, True], ["SMALL_before", "scalar", "s 1", False], ["BIG2", "list", [big[: n // 2], "x y"], False], ["SMALL_after", "scalar", "t", True]]
+
+
+def work_size(task):
+    tier, _k, transport, kb = task
+    classes = {}
+    stats = {"envs": 0, "combination": 0, "transient": 0, "timeouts_retried": 0}
+    ctx = Ctx()
+    try:
+        vars_ = size_vars(kb)
+        failure, per, tag = run_env(ctx, transport, vars_)
+        stats["envs"] += 1
+        if failure is not None and failure.startswith("channel stuck (no answer within"):
+            failure, per, tag = run_env(ctx, transport, vars_)
+            stats["envs"] += 1
+        spawns, recovered = ctx.spawns, ctx.recovered
+    finally:
+        ctx.close()
+    viol = []
+    k = f"{transport}:payload-{'above' if kb >= 64 else 'below'}-64KiB:{'ok' if failure is None and not per else tag}"
+    classes[k] = 1
+    if failure is not None or per:
+        msg = "; ".join(filter(None, [per.get(i, "")[:200] for i in sorted(per)] + [failure]))
+        viol.append({"transport": transport, "size_kb": kb, "msg": f"[{transport}] environment of ~{kb} KiB: {msg}"[:600]})
+    return {"evals": len(vars_), "classes": classes, "viol": viol, "keep_all_viol": True, "samples": [],
+            "counters": {"environments_sent": stats["envs"], "daemon_spawns": spawns, "daemon_recoveries": recovered}}
+
+
 def work(task):
     if task[1] == "history":
         return work_history(task)
+    if task[1] == "size":
+        return work_size(task)
     tier, transport, kind, parity, lo, hi = task
     u = universe(tier)
     classes = {}
@@ -604,7 +642,7 @@ def replay(case):
             ctx.close()
     ctx = Ctx()
     try:
-        vars_ = [tuple(v) for v in case["vars"]]
+        vars_ = [tuple(v) for v in (size_vars(case["size_kb"]) if "size_kb" in case else case["vars"])]
         failure, per, tag = run_env(ctx, case["transport"], vars_)
         if failure is not None and failure.startswith("channel stuck (no answer within"):
             failure, per, tag = run_env(ctx, case["transport"], vars_)
@@ -613,7 +651,7 @@ def replay(case):
     msgs = [per[i] for i in sorted(per)]
     if failure:
         msgs.append(failure)
-    return [f"[{case['transport']}] " + m for m in msgs]
+    return [f"[{case['transport']}] " + m[:300] for m in msgs]
 
 
 def SETUP(tier):
@@ -630,7 +668,7 @@ def SETUP(tier):
 
 
 def _single(case):
-    return case["vars"][0] if len(case["vars"]) == 1 else None
+    return case["vars"][0] if len(case.get("vars") or ()) == 1 else None
 
 
 def _vals(var):
